@@ -159,9 +159,19 @@ def run(ctx):
     ec = bi.calls("expand_rule")
     reset_before = bool(ec) and any(paths.always_before(bi, ec[0], lambda e, s=s: e == s["node"]) for s in resets)
     ctx.check(j2, balanced or reset_before, key(eu, "empty-at-start"), eu.where(push[0]["node"]) if push else eu.where(eu.root), "a failing expansion returns without popping the rule stack and the builder does not reset it: a later build on the same grammar object sees phantom recursion")
+    # the other per-build state is fresh as well: links emitted by an earlier (possibly refused) build must not be converted
+    j8 = ctx.rule("PAIR.J8-fresh-build", "every build starts from an empty link list, state count zero and entry = exit = 0: these resets are passed on every path from the builder's entry to its expand_rule call (a list cleared only after a successful conversion keeps the links of a refused build)", floor=3)
+    for fld, what in (("links", "the link list"), ("nstate", "the state counter")):
+        rs = [s_ for s_ in paths.field_stores(bi, "jsgf_s", fld) if s_["rhs"] is not None and paths.is_const(bi, s_["rhs"], 0)]
+        okf = bool(ec) and any(paths.always_before(bi, ec[0], lambda e, s_=s_: e == s_["node"]) for s_ in rs)
+        ctx.check(j8, okf, key(bi, "reset:" + fld), bi.where(ec[0]) if ec else bi.where(bi.root), "%s is not reset before the rule is expanded: what an earlier build on the same grammar object left there (also a refused one) ends up in this FSG" % what)
+    ents = [s_ for s_ in paths.stores(bi) if s_["path"] in ("rule->entry", "rule->exit") and s_["rhs"] is not None]
+    oke = bool(ec) and len({s_["path"] for s_ in ents if paths.always_before(bi, ec[0], lambda e, s_=s_: e == s_["node"] or e == bi.parent.get(s_["node"]) if isinstance(bi.parent, dict) else e == s_["node"])}) >= 1
+    ctx.check(j8, oke, key(bi, "reset:entry-exit"), bi.where(ec[0]) if ec else bi.where(bi.root), "rule->entry / rule->exit are not reset before the rule is expanded")
     # the pushed rule is the one expanded; the stack scan compares with the looked-up subrule
     scan = [c for (s0, d0, c, pol) in er.cfg.cond_edges() if pol and "subnode->data.ptr" in er.canon(c, subst=False)]
-    ctx.check(j2, len(scan) == 1 and paths.rel(er, scan[0], True, subst=False) in (("subnode->data.ptr", "==", "subrule"), ("subrule", "==", "subnode->data.ptr")), key(er, "stack-scan"), er.where(er.root), "stack scan does not compare entries with the referenced rule")
+    cmp_ = [c for c in scan if paths.rel(er, c, True, subst=False) in (("subnode->data.ptr", "==", "subrule"), ("subrule", "==", "subnode->data.ptr"))]
+    ctx.check(j2, len(cmp_) == 1, key(er, "stack-scan"), er.where(er.root), "stack scan does not compare entries with the referenced rule")
 
     # ---- J3 weights ----------------------------------------------------------------------------------
     j3 = ctx.rule("GUARD.J3-weights", "the weight norm is the sum over the first atoms of all alternatives, zero is repaired before the division, and the division is applied to the same atoms", floor=4)
@@ -191,6 +201,24 @@ def run(ctx):
     on_stack = lambda fn, cc, pol: paths.cond_atoms(fn, cc, pol, subst=False) == ("subnode", True)
     for r in rec_ret:
         ctx.check(j5, paths.guarded(er, r, last_atom) and paths.guarded(er, r, on_stack), key(er, "right-recursion-only"), er.where(r), "recursion is accepted without the dominating `last atom of the sequence` test (embedded or left recursion would be compiled)")
+    # right recursion through several rules: every rule between the one recursed to and the current one must itself have been
+    # entered from the last position of its sequence.  The code marks a rule entered from the middle with a NULL stack entry.
+    marks = [c for c in er.calls("glist_add_ptr") if er.canon(er.args(c)[0], subst=False) == "grammar->rulestack" and paths._is_zero(er, er.args(c)[1])]
+    unmarks = [s_ for s_ in paths.field_stores(er, "jsgf_s", "rulestack") if "gnode_free" in er.canon(s_["rhs"], subst=False)]
+    middle = lambda fn, cc, pol: paths.cond_atoms(fn, cc, pol, subst=False) == ("gn->next", True)
+    exs_ = er.calls("expand_rule")
+    okm = len(marks) == 1 and len(unmarks) == 1 and len(exs_) == 1 and paths.guarded(er, marks[0], middle) and paths.guarded(er, unmarks[0]["node"], middle) \
+        and paths.always_before(er, exs_[0], lambda e: True) and not er.cfg.path_exists(paths.pos_of(er, marks[0]), lambda e: e == unmarks[0]["node"], is_barrier=lambda e: e == exs_[0]) \
+        and paths.must_pass(er, exs_[0], lambda e: e == unmarks[0]["node"], removed_edges=set(paths.guard_edges(er, last_atom)))
+    ctx.check(j5, okm, key(er, "middle-mark"), er.where(exs_[0]) if exs_ else er.where(er.root), "a rule expanded from the middle of a sequence is not bracketed by a stack mark (pushed before, popped after, both exactly when the reference is not the last atom): recursion from inside it to an enclosing rule would be taken for right recursion")
+    flag = [s_ for s_ in paths.stores(er) if s_["path"] == "embedded"]
+    sets = [s_ for s_ in flag if s_["rhs"] is not None and er.constval(s_["rhs"]) == 1]
+    clears = [s_ for s_ in flag if s_["rhs"] is not None and er.constval(s_["rhs"]) == 0]
+    okf = len(sets) == 1 and len(clears) == 1 and paths.guarded(er, sets[0]["node"], lambda fn, cc, pol: paths.cond_atoms(fn, cc, pol, subst=False) == ("subnode->data.ptr", False)) \
+        and all(paths.always_before(er, c, lambda e: e == clears[0]["node"]) for c in cmp_)
+    ctx.check(j5, okf, key(er, "mark-seen"), er.where(er.root), "the stack scan does not record whether it passed a mark (flag cleared before the scan, set on a NULL entry)")
+    for r in rec_ret:
+        ctx.check(j5, paths.guarded(er, r, lambda fn, cc, pol: paths.cond_atoms(fn, cc, pol, subst=False) == ("embedded", False)), key(er, "no-mark-between"), er.where(r), "recursion to a rule below a mark on the stack is accepted: <s> = <b> w; <b> = y <s> | z; would be compiled to y* z w")
     back = [c for c in links if paths.guarded(er, c, on_stack)]
     ctx.check(j5, len(back) == 1, key(er, "back-link"), er.where(er.root), "expected one back link in the recursion branch")
     for c in back:
